@@ -1,0 +1,34 @@
+//go:build verif
+
+package main
+
+import (
+	"encoding/json"
+
+	"github.com/ludo-technologies/pyscn/internal/analyzer"
+)
+
+func init() {
+	// clone_pairs: run fragment extraction, exhaustive / public / batched / LSH pair
+	// detection on the given Python sources with the given detector configuration.
+	register("clone_pairs", func(raw json.RawMessage) (interface{}, error) {
+		var in struct {
+			Files      []analyzer.VerifCloneFile `json:"files"`
+			Cfg        json.RawMessage           `json:"cfg"`
+			BatchSizes []int                     `json:"batch_sizes"`
+			LSH        []analyzer.VerifLSHParams `json:"lsh"`
+			Table      string                    `json:"table"`
+		}
+		if err := json.Unmarshal(raw, &in); err != nil {
+			return nil, err
+		}
+		cfg := *analyzer.DefaultCloneDetectorConfig()
+		if len(in.Cfg) > 0 {
+			if err := json.Unmarshal(in.Cfg, &cfg); err != nil {
+				return nil, err
+			}
+		}
+		return analyzer.VerifCloneRun(&analyzer.VerifCloneRequest{Files: in.Files, Config: cfg,
+			BatchSizes: in.BatchSizes, LSH: in.LSH, Table: in.Table})
+	})
+}
